@@ -1,5 +1,8 @@
 import Marwood.Lemmas.Symbol
 import Marwood.Lemmas.HeapWFOps
+import Marwood.Lemmas.MachineSym
+import Marwood.Lemmas.GoodDemo
+import Marwood.Proofs.C13
 /-!
 # C18 — symbols are interned: same name iff `eq?`, across collections and conversions
 
@@ -17,6 +20,11 @@ spelling") is part of `WFHeap`; that it is established by `Heap::new` and preser
          `escaped_literal_not_fixed`
 * the pinned `string->symbol` (before commit b17ac76): `pinned_backslash_not_inverse`,
   `pinned_backslash_unreadable`, `pinned_two_spellings_one_name`
+* T18.1/T18.2 **about executions of the concrete machine** (`machine ext force` of Vm/ConcreteHeap.lean: `run_one`
+  over the heap with its real free list and symbol table, `run_gc` = the C03 collector): `symbols_interned_of_goodI`,
+  `symbols_interned_in_every_reachable_state`, `symbol_addresses_interned_in_every_reachable_state`,
+  `symbol_production_interns_machine`, and for the concrete allocator `put_symbol_interns_concrete`,
+  `maybePut_symbol_interns_concrete`
 -/
 namespace Marwood.Proofs.C18
 open Marwood Marwood.Heap
@@ -238,5 +246,103 @@ example : WFHeap true hB ∧ hB.AllocSym 0 ['a'] ∧
   obtain ⟨wf1, ⟨p, hv, hp⟩, _⟩ := production_interns _ _ _ _ wf0 (by decide) h1
   cases hv
   exact ⟨wf1, hp, rfl, rfl⟩
+
+/-! ## T18.1 / T18.2 as theorems about executions of the concrete machine
+
+`machine ext force` is `run_one` over the concrete heap (`CHeap`: cells, 2-bit map, free list, symbol table,
+global slots) with `run_gc` = the C03 collector model through the erasure. `Reaches` allows any number of
+instructions and a collection at **any** boundary. `GoodI` of the initial state is propagated by
+`goodI_reaches` (one lemma per opcode + `good_gc`); it contains `WFHeap`, hence `Interned`.
+Hypotheses, as in T03.5 / T13.3: `ExtLaws` / `ExtGood` (the unmodelled builtins, `eval`'s compiler and VPUSH respect
+the simulation and the heap invariant — this is where "`string->symbol` and friends end in `maybe_put`" lives: a
+builtin that stored a second cell for a name would break `HG`), `SizeBounded`, `StackDiscAlong`. -/
+
+section machine
+open Marwood.Vm.Concrete Marwood.Lemmas.Sim Marwood.Lemmas.Good Marwood.Lemmas.MachineSym
+open Marwood.Vm (St)
+
+/-- **T18.1 on a machine state satisfying the invariant.** Two addresses the machine can get hold of (`Sees`:
+a collector root, or referred to by an allocated cell) whose cells hold symbols are the same address exactly
+when the names are equal, and `eq?` (`Vm::eqv` on the two pointers) answers "names equal". -/
+theorem symbols_interned_of_goodI {s : St CHeap} (g : GoodI s) {p q : Nat} {n m : Text}
+    (hp : Sees s p) (hq : Sees s q) (cp : SymCell s.heap p n) (cq : SymCell s.heap q m) :
+    (p = q ↔ n = m) ∧ (toHeap s.heap).eqvSym p q = some (decide (n = m)) := by
+  have ap := sees_sym_alloc g hp cp
+  have aq := sees_sym_alloc g hq cq
+  exact ⟨interned_ptr_eq_iff _ g.hg.wf.interned ap aq, (interned_eqv_iff _ g.hg.wf.interned ap aq).1⟩
+
+/-- **T18.1/T18.2 for every reachable state, on addresses.** -/
+theorem symbol_addresses_interned_in_every_reachable_state {ext : ExtOps} (force : Bool) (el : ExtLaws ext)
+    (eg : ExtGood ext) {s0 : St CHeap} (g0 : GoodI s0) (sb : SizeBounded (machine ext force) s0)
+    (sdl : StackDiscAlong (machine ext force) s0) {s : St CHeap} (hr : Reaches (machine ext force) s0 s)
+    {p q : Nat} {n m : Text} (hp : Sees s p) (hq : Sees s q) (cp : SymCell s.heap p n) (cq : SymCell s.heap q m) :
+    (p = q ↔ n = m) ∧ (toHeap s.heap).eqvSym p q = some (decide (n = m)) :=
+  symbols_interned_of_goodI (goodI_reaches force el eg g0 sb sdl s hr) hp hq cp cq
+
+/-- **T18.1/T18.2, the property's first sentence as a theorem about executions.** Start the concrete machine in
+a state satisfying the invariant. In **every** state it reaches — after any number of instructions and of
+collections at any boundaries — take two values sitting anywhere a first-class value can sit (`Loc`: `acc`, a
+stack cell at or below `sp`, a global slot, a boxed cell, the car or cdr of a pair, a vector element, an environment
+slot, a cell of a saved continuation stack). If both are pointers to symbol cells, they are equal as values iff the
+names are equal: `eq?` on symbols is name equality, however each was produced and whatever was collected in
+between. -/
+theorem symbols_interned_in_every_reachable_state {ext : ExtOps} (force : Bool) (el : ExtLaws ext)
+    (eg : ExtGood ext) {s0 : St CHeap} (g0 : GoodI s0) (sb : SizeBounded (machine ext force) s0)
+    (sdl : StackDiscAlong (machine ext force) s0) {s : St CHeap} (hr : Reaches (machine ext force) s0 s)
+    {v w : Vm.VCell} {n m : Text} (lv : Loc s v) (lw : Loc s w) (sv : SymVal s.heap v n) (sw : SymVal s.heap w m) :
+    v = w ↔ n = m := by
+  obtain ⟨p, rfl, cp⟩ := sv
+  obtain ⟨q, rfl, cq⟩ := sw
+  have key := (symbol_addresses_interned_in_every_reachable_state force el eg g0 sb sdl hr
+    (loc_sees lv) (loc_sees lw) cp cq).1
+  constructor
+  · intro e; cases e; exact key.mp rfl
+  · intro e; rw [key.mpr e]
+
+/-- **production, machine level.** Take any instruction executed from a reachable state (CONS and VARARG call
+`put`, a builtin's result goes through `maybe_put`, `eval` and the generic builtins are the parameters `ext`).
+Every allocated symbol cell of the successor — in particular every cell the instruction created — is *the*
+cell of its name: the symbol table maps the name to it and no other allocated cell holds the name. -/
+theorem symbol_production_interns_machine {ext : ExtOps} (force : Bool) (el : ExtLaws ext)
+    (eg : ExtGood ext) {s0 : St CHeap} (g0 : GoodI s0) (sb : SizeBounded (machine ext force) s0)
+    (sdl : StackDiscAlong (machine ext force) s0) {s s' : St CHeap} (hr : Reaches (machine ext force) s0 s)
+    (hs : (machine ext force).step s = .next s' ∨ (machine ext force).step s = .halt s')
+    {p : Nat} {n : Text} (hc : SymCell s'.heap p n) (hn : (toHeap s'.heap).NonFree p) :
+    symLookup s'.heap n = some p ∧ ∀ q, SymCell s'.heap q n → (toHeap s'.heap).NonFree q → q = p := by
+  have hr' : Reaches (machine ext force) s0 s' := by
+    rcases hs with e | e
+    · exact .next hr e
+    · exact .halt hr e
+  have g := goodI_reaches force el eg g0 sb sdl s' hr'
+  have ap : (toHeap s'.heap).AllocSym p n := ⟨symCell_iff.mp hc, hn⟩
+  refine ⟨(g.hg.wf.interned n p).mpr ap, ?_⟩
+  intro q hq hnq
+  exact (interned_ptr_eq_iff _ g.hg.wf.interned ⟨symCell_iff.mp hq, hnq⟩ ap).mpr rfl
+
+/-- **production, the concrete allocator** (`Heap::put` over the real free list): producing a symbol value
+named `n` on a well-formed heap returns a pointer to an allocated cell holding `n` to which the table maps `n`;
+every allocated symbol stays where it was; and the cell is either the one that held `n` already — then the heap
+is unchanged — or no allocated cell held `n`. -/
+theorem put_symbol_interns_concrete {h : CHeap} (wf : WFHeap true (toHeap h)) (sm : Small h) {v : Vm.VCell}
+    {n : Text} (hs : symOf v = some n) : Produced h (putV h v).1 (putV h v).2 n :=
+  putV_symbol_interns wf sm hs
+
+/-- the same for `Heap::maybe_put` (the tail of every builtin call: `string->symbol`, `car` of a quoted list, …) -/
+theorem maybePut_symbol_interns_concrete {h : CHeap} (wf : WFHeap true (toHeap h)) (sm : Small h) {v : Vm.VCell}
+    {n : Text} (hs : symOf v = some n) : Produced h (maybePutV h v).1 (maybePutV h v).2 n :=
+  maybePutV_symbol_interns wf sm hs
+
+/-! ### non-vacuity -/
+
+open Marwood.Lemmas.Good.Demo Marwood.Proofs.C13 in
+/-- the hypotheses of the machine-level theorems are jointly satisfiable (the program `HALT` of
+Lemmas/GoodDemo.lean, the parameter set `failingExt` of C13) -/
+example : GoodI (sHalt 0) ∧ SizeBounded (machine failingExt false) (sHalt 0) ∧
+    StackDiscAlong (machine failingExt false) (sHalt 0) ∧ ExtLaws failingExt ∧ ExtGood failingExt ∧
+    Reaches (machine failingExt false) (sHalt 0) (sHalt 1) :=
+  ⟨sHalt_goodI 0, sHalt_sizeBounded _, sHalt_discAlong _, failingExt_laws, failingExt_good,
+   .halt (.refl _) (sHalt_step0 _ _)⟩
+
+end machine
 
 end Marwood.Proofs.C18
